@@ -23,6 +23,9 @@ def check(ctx, run):
     safety.panic_inventory(ctx, run, 'R18.3', ['number::Number::decode'], floor=4)
     numcodec.r18_4(ctx, run)
     numcodec.r18_5(ctx, run)
+    # stored numbers keep their value only if they reach the buffer through the codec checked above (R01.10)
+    from rules import layout as _layout
+    _layout.r01_10(ctx, run, rule='R18.7/R01.10')
     import boundaries
     _bf = lambda p_: p_.startswith('number::')
     boundaries.check(ctx, run, 'R18.6', [p_ for p_ in sorted(boundaries.load_baseline() or {}) if _bf(p_)], 'a numeric view / decoder rejects a value')
